@@ -88,8 +88,10 @@ def run_sub(
     fake_time: typing.Optional[float] = None,
     drop_caps: bool = False,
     timeout: int = 300,
+    exec_code: typing.Optional[str] = None,
 ) -> typing.Tuple[int, str, str]:
-    """python -m nunavut <argv> in a fresh process, optionally with a fake clock / without CAP_DAC_OVERRIDE."""
+    """python -m nunavut <argv> (or, with exec_code, the given statements) in a fresh process, optionally with a fake clock /
+    without CAP_DAC_OVERRIDE."""
     e = dict(os.environ)
     e.pop("DSDL_INCLUDE_PATH", None)
     if env:
@@ -103,6 +105,8 @@ def run_sub(
         cmd += ["--fake-time", repr(float(fake_time))]
     if drop_caps:
         cmd += ["--drop-caps"]
+    if exec_code is not None:
+        cmd += ["--exec-code", exec_code]
     cmd += ["--"] + [str(a) for a in argv]
     p = subprocess.run(cmd, cwd=cwd, env=e, capture_output=True, text=True, timeout=timeout)
     return p.returncode, p.stdout, p.stderr
